@@ -3,8 +3,8 @@
 
    What is carried from one file to the next inside the reused object:
      - CppCheckLogger::mErrorList      (rendered texts already seen; cleared by
-                                        mLogger->clear() at the END of checkInternal,
-                                        not on the early-return paths)
+                                        mLogger->clear() at the START of checkInternal
+                                        (fix 8cb695c) and again at its end)
      - CppCheckLogger::mExitCode       (reset by resetExitCode() at the start)
      - CppCheckLogger::mLocationMacros (replaced by setLocationMacros per configuration)
      - CppCheckLogger::mRemarkComments (replaced by setRemarkComments after the
@@ -129,8 +129,8 @@ Section Iso.
     match list_is_suppressed pm (l_nomsg L) (dummy (a_path f)) true with
     | None => None
     | Some (n1, _) =>
-        (* R1  mLogger->resetExitCode() *)
-        let st0 := mkL n1 (l_nofail L) (l_seen L) false in
+        (* R1  mLogger->resetExitCode(); mLogger->clear()  (clear at the start: fix 8cb695c) *)
+        let st0 := mkL n1 (l_nofail L) [] false in
         match a_kind f with
         | Markup => Some (mkI st0 (i_locm S) (i_rem S), [])
         | k =>
@@ -246,11 +246,8 @@ Definition locmaps_of (f : fileA) : list locmap :=
   | _ => []
   end.
 
-(* texts that stay in mErrorList after g: only when g leaves before clear() *)
-Definition left_texts (g : fileA) : list str :=
-  match a_kind g with
-  | Early | Cached => map w_text (raws_of g)
-  | _ => []
-  end.
+(* the same state with another duplicate list *)
+Definition with_seen (S : istate) (X : list str) : istate :=
+  mkI (mkL (l_nomsg (i_log S)) (l_nofail (i_log S)) X (l_exit (i_log S))) (i_locm S) (i_rem S).
 
 Definition has_key {A} (k : loc) (l : list (loc * A)) : bool := existsb (fun e => loc_eqb k (fst e)) l.
